@@ -336,19 +336,30 @@ func (d *storeDom) Exec(a []string) string {
 			return "ok"
 		case "create", "update", "delete":
 			from := d.run.C.NumPubs()
-			txn := d.st.Write(a[1])
-			var err error
-			switch a[0] {
-			case "create":
-				v, _ := d.parseVal(a[2:])
-				err = txn.Create(v)
-			case "update":
-				v, _ := d.parseVal(a[2:])
-				err = txn.Update(v)
-			default:
-				err = txn.Delete()
+			err, panicked := func() (err error, panicked bool) {
+				txn := d.st.Write(a[1])
+				defer txn.Close()
+				defer func() {
+					if recover() != nil {
+						panicked = true
+					}
+				}()
+				switch a[0] {
+				case "create":
+					v, _ := d.parseVal(a[2:])
+					err = txn.Create(v)
+				case "update":
+					v, _ := d.parseVal(a[2:])
+					err = txn.Update(v)
+				default:
+					err = txn.Delete()
+				}
+				return
+			}()
+			if panicked {
+				_, pubs := d.run.C.Snapshot()
+				return "panic evs=" + renderEvents(pubs[from:])
 			}
-			txn.Close()
 			if err != nil {
 				return "err"
 			}
